@@ -105,4 +105,23 @@ def abbreviations : List (Str × Key) :=
     (s "x≤y≤x", K .x .y .y .x .le .le .le), (s "x<y<x", K .x .y .y .x .lt .le .lt),
     (s "y=y<x", K .y .y .x .x .eq .lt .le), (s "x<x=y", K .x .x .y .y .lt .eq .le) ]
 
+/-- The codes of `k` with the second letter of an adjacent pair `c ≤ c` dropped: the manual's "single
+`x`" (resp. `y`) abbreviation of that key, when the key has such a pair. -/
+def dropPair (c : Letter) (k : Key) : Option Codes :=
+  if k.l1 = c ∧ k.l2 = c ∧ k.o1 = .le then some [k.l1.code, k.o2.code, k.l3.code, k.o3.code, k.l4.code]
+  else if k.l2 = c ∧ k.l3 = c ∧ k.o2 = .le then some [k.l1.code, k.o1.code, k.l2.code, k.o3.code, k.l4.code]
+  else if k.l3 = c ∧ k.l4 = c ∧ k.o3 = .le then some [k.l1.code, k.o1.code, k.l2.code, k.o2.code, k.l3.code]
+  else none
+
+/-- Both pairs dropped (`x<y` for `x≤x<y≤y`). -/
+def dropBoth (k : Key) : Option Codes :=
+  if k.l1 = k.l2 ∧ k.l3 = k.l4 ∧ k.o1 = .le ∧ k.o3 = .le then some [k.l1.code, k.o2.code, k.l3.code] else none
+
+/-- EVERY single-letter abbreviation of EVERY key (60 of them), except the two spellings `x=y` / `y=x`,
+which the manual reserves for the identity `x=y≤x=y` (`abbreviations`). -/
+def allAbbrevs : List (Codes × Key) :=
+  (allKeys.flatMap fun k =>
+    ((dropPair .x k).toList ++ (dropPair .y k).toList ++ (dropBoth k).toList).map fun s => (s, k)).filter
+      fun p => p.1 != [120, 61, 121] && p.1 != [121, 61, 120]
+
 end Paroxy.Spec.NP
